@@ -435,11 +435,16 @@ func CDSRegion2fromGFF(fs []gff.Feature, refSeqDegapped string) (Region, error) 
 	pos := make([]int, 0)
 	switch fs[0].Strand {
 	case "+":
-		for _, f := range fs {
+		for k, f := range fs {
 			if f.Strand != "+" {
 				return r, errors.New("Error parsing gff: mixed strands within a single ID")
 			}
-			for i := f.Start + f.Phase; i <= f.End; i++ {
+			// the phase of the first row moves the start of the coding sequence; later rows continue its frame
+			start := f.Start
+			if k == 0 {
+				start += f.Phase
+			}
+			for i := start; i <= f.End; i++ {
 				pos = append(pos, i)
 			}
 		}
@@ -462,7 +467,12 @@ func CDSRegion2fromGFF(fs []gff.Feature, refSeqDegapped string) (Region, error) 
 			if f.Strand != "-" {
 				return r, errors.New("Error parsing gff: mixed strands within a single ID")
 			}
-			for i := f.End - f.Phase; i >= f.Start; i-- {
+			// on the reverse strand the coding sequence starts in the last row
+			end := f.End
+			if j == len(fs)-1 {
+				end -= f.Phase
+			}
+			for i := end; i >= f.Start; i-- {
 				pos = append(pos, i)
 			}
 		}
